@@ -872,8 +872,17 @@ func polyToComplexNoCRT(coeffs []uint64, values FloatSlice, scale rlwe.Scale, lo
 		} else {
 			slots := 1 << logSlots
 
+			// [X]/(X^N+1) to [X+X^-1]/(X^N+1): the imaginary parts are fully determined by the
+			// real parts (the buffer might hold values of a previous call)
+			for i := 0; i < slots; i++ {
+				if values[i][1] == nil {
+					values[i][1] = new(big.Float)
+				}
+			}
+
+			values[0][1].SetInt64(0)
 			for i := 1; i < slots; i++ {
-				values[i][1].Sub(values[i][1], values[slots-i][0])
+				values[i][1].Neg(values[slots-i][0])
 			}
 		}
 
@@ -979,10 +988,18 @@ func polyToComplexCRT(poly ring.Poly, bigintCoeffs []*big.Int, values FloatSlice
 				values[i][1].SetInt(c)
 			}
 		} else {
-			// [X]/(X^N+1) to [X+X^-1]/(X^N+1)
+			// [X]/(X^N+1) to [X+X^-1]/(X^N+1): the imaginary parts are fully determined by the
+			// real parts (the buffer might hold values of a previous call)
 			slots := 1 << logSlots
+			for i := 0; i < slots; i++ {
+				if values[i][1] == nil {
+					values[i][1] = new(big.Float)
+				}
+			}
+
+			values[0][1].SetInt64(0)
 			for i := 1; i < slots; i++ {
-				values[i][1].Sub(values[i][1], values[slots-i][0])
+				values[i][1].Neg(values[slots-i][0])
 			}
 		}
 
